@@ -185,13 +185,19 @@ Definition pjunk_ok (junk : list (list xtree)) : bool :=
   forallb (forallb (fun t => negb (is_elem t))) junk.
 (** [wdoc_rfc_ok]: what RFC 4918 section 17 allows (unknown elements are those with another
     expanded name); [wdoc_ok]: what the clients tolerate (also no foreign namesake). *)
+(** a status code is three digits (RFC 2616 section 6.1.1) *)
+Definition code3_ok (c : Z) : bool := (100 <=? c) && (c <=? 999).
+Definition wstatus_ok (s : option (Z * string)) : bool :=
+  match s with Some (c, _) => code3_ok c | None => true end.
 Definition wgroup_rfc_ok (g : wgroup) : bool :=
-  junk_ok (wg_junk g) && pjunk_ok (wg_pjunk g) && forallb is_elem (wg_props g).
-Definition wresp_rfc_ok (r : wresp) : bool := junk_ok (wr_junk r) && forallb wgroup_rfc_ok (wr_groups r).
+  junk_ok (wg_junk g) && pjunk_ok (wg_pjunk g) && forallb is_elem (wg_props g) && code3_ok (wg_code g).
+Definition wresp_rfc_ok (r : wresp) : bool :=
+  junk_ok (wr_junk r) && forallb wgroup_rfc_ok (wr_groups r) && wstatus_ok (wr_status r).
 Definition wdoc_rfc_ok (d : wdoc) : bool := junk_ok (wd_junk d) && forallb wresp_rfc_ok (wd_resps d).
 Definition wgroup_ok (g : wgroup) : bool :=
-  junk_local_ok (wg_junk g) && pjunk_ok (wg_pjunk g) && forallb is_elem (wg_props g).
-Definition wresp_ok (r : wresp) : bool := junk_local_ok (wr_junk r) && forallb wgroup_ok (wr_groups r).
+  junk_local_ok (wg_junk g) && pjunk_ok (wg_pjunk g) && forallb is_elem (wg_props g) && code3_ok (wg_code g).
+Definition wresp_ok (r : wresp) : bool :=
+  junk_local_ok (wr_junk r) && forallb wgroup_ok (wr_groups r) && wstatus_ok (wr_status r).
 Definition wdoc_ok (d : wdoc) : bool := junk_local_ok (wd_junk d) && forallb wresp_ok (wd_resps d).
 (** selector of the known finding: some layout is RFC-conformant but not [wdoc_ok] *)
 Definition foreign_namesake (d1 d2 : wdoc) : bool := negb (wdoc_ok d1 && wdoc_ok d2).
